@@ -85,8 +85,9 @@ def _emit(ctx, prefix, sub, kind, f, text, ok, detail, node=None):
     return ctx.ob(rule, kind, f, text, ok, detail, node)
 
 
-def scanner_obligations(ctx, rule_prefix: str = "") -> bool:
-    """Evaluate R1-R5 for iter_find_needle; returns True iff R1 and R3 hold (offsets >= start)."""
+def scanner_obligations(ctx, rule_prefix: str = ""):
+    """Evaluate R1-R5 for iter_find_needle; returns True iff R1 and R3 hold (offsets >= start), False when a located
+    scanner violates them, None when the scanner shape is not recognised (undecided)."""
     s = Scanner(ctx)
     f = s.f
     P = rule_prefix
@@ -96,7 +97,7 @@ def scanner_obligations(ctx, rule_prefix: str = "") -> bool:
         rule = P if P.startswith("R8") else "R1"
         ctx.undecided(rule, "TAINT", f, ("[R1] " if P.startswith("R8") else "") + "scanner shape",
                       "iter_find_needle is not `hay = carry + fp.read(..)` searched with hay.find(needle, ..) in two nested loops")
-        return False
+        return None
     # ---- R1: provenance of the carry
     r1 = True
     for st, v in assignments_to(f.node, s.carry):
@@ -317,6 +318,26 @@ def scanner_obligations(ctx, rule_prefix: str = "") -> bool:
     return r1 and r3
 
 
+def _not_none_choice(ctx, f, e):
+    """`A if X is None else B` / `B if X is not None else A` with X a reference that resolves to a function, partial or class
+    of the package (such a name is not None): B.  Anything else: e unchanged."""
+    seen = 0
+    while isinstance(e, ast.IfExp) and seen < 4:
+        seen += 1
+        t = e.test
+        if not (isinstance(t, ast.Compare) and len(t.ops) == 1 and isinstance(t.ops[0], (ast.Is, ast.IsNot))
+                and isinstance(t.comparators[0], ast.Constant) and t.comparators[0].value is None and dotted(t.left)):
+            break
+        try:
+            sym = ctx.rs.lookup_dotted(f.module.name, dotted(t.left))
+        except Exception:
+            sym = None
+        if sym is None or getattr(sym, "kind", None) not in ("func", "partial", "class", "struct"):
+            break
+        e = e.orelse if isinstance(t.ops[0], ast.Is) else e.body
+    return e
+
+
 def _mentions(e: ast.AST, name: str) -> bool:
     return any(isinstance(n, ast.Name) and n.id == name for n in ast.walk(e))
 
@@ -407,7 +428,7 @@ def _expand(fn, e, depth=0) -> Optional[SymPoly]:
 _FACTS = {}
 
 
-def scanner_facts_hold(ctx) -> bool:
+def scanner_facts_hold(ctx):
     """Used by the escape analysis: offsets yielded by iter_find_needle are >= the scan start."""
     key = id(ctx.repo)
     if key not in _FACTS:
@@ -612,14 +633,23 @@ def r6(ctx):
     size_e = kws.get("size")
     size_src = None
     if size_e is not None:
-        se = size_e
+        se, size_at = size_e, rst
         if isinstance(se, ast.Name):
             rd = reaching_defs(ctx, f, se.id, rst)
-            se = rd[0][1] if len(rd) == 1 else None
+            se, size_at = (rd[0][1], rd[0][0]) if len(rd) == 1 else (None, rst)
+        se = _not_none_choice(ctx, f, se) if se is not None else None
         size_src = _le32(ctx, f, se) if se is not None else None
-    size_ok = size_src is not None and rid_of(size_src, rst) == 1
-    x_ok = rid_of(kws.get("xorkey"), rst) == 2
-    h_ok = rid_of(kws.get("hints"), rst) == 3
+    size_ok = size_src is not None and rid_of(size_src, size_at if size_e is not None else rst) == 1
+    def _rid_through(e):
+        # a record field given as a local: judged where that local was bound (a temporary reused for several reads)
+        if isinstance(e, ast.Name):
+            rd = reaching_defs(ctx, f, e.id, rst)
+            if len(rd) == 1 and rd[0][1] is not None and isinstance(rd[0][1], ast.Name):
+                return rid_of(rd[0][1], rd[0][0])
+        return rid_of(e, rst)
+
+    x_ok = _rid_through(kws.get("xorkey")) == 2
+    h_ok = _rid_through(kws.get("hints")) == 3
     pay = kws.get("payload")
     if isinstance(pay, ast.Name):
         rd = reaching_defs(ctx, f, pay.id, rst)
